@@ -18,6 +18,11 @@ BUILTIN_ANNOTATIONS = ["gdc-1.0.0", "gdc-1.0.0-protected", "gdc-1.0.0-public", "
                        "no-annotation-specification"]
 
 
+def reg_op(rng, defs):
+    """A registration; the file names reach all_schemes as a list, a tuple or a one-shot iterable (a generator, map(...))."""
+    return {"k": "register", "defs": defs, "paths_as": rng.choice(["list", "list", "tuple", "generator", "map"])}
+
+
 def run_history(req):
     p = subprocess.run([sys.executable, "-W", "ignore", "-m", "verif.regproc"], input=json.dumps(req).encode(), cwd=common.VERIF,
                        stdout=subprocess.PIPE, stderr=subprocess.PIPE, timeout=120)
@@ -77,7 +82,7 @@ def gen_history(rng):
         if rng.random() < 0.4:
             d0 = rng.choice(defs)
             ops.append({"k": "find", "version": d0["version"], "annotation": d0["annotation"]})   # a miss before registration
-        ops.append({"k": "register", "defs": defs})
+        ops.append(reg_op(rng, defs))
         regs += [d for d in defs if d["annotation"].startswith("lab-")]
         # interleaved lookups / header validation / reads after each registration
         for d in rng.sample(regs, min(len(regs), 2)):
@@ -275,7 +280,7 @@ def gen_history2(rng):
             continue
         if rng.random() < 0.3:
             ops.append({"k": "find", "version": defs[0]["version"], "annotation": defs[0]["annotation"]})   # a miss before registration
-        ops.append({"k": "register", "defs": defs})
+        ops.append(reg_op(rng, defs))
         regs += defs
         extras.update({d["annotation"]: d for d in defs})
         for d in defs:
@@ -344,7 +349,7 @@ def gen_history_kept(rng):
         k += 1
         if (d["version"], d["annotation"]) in {(x["version"], x["annotation"]) for x in regs}:
             continue
-        ops.append({"k": "register", "defs": [d]})
+        ops.append(reg_op(rng, [d]))
         regs.append(d)
         extras[d["annotation"]] = d
         for sl, hdr in pending:
@@ -513,7 +518,7 @@ def run(ctx):
 
 def _step_text(o, s):
     if o["k"] == "register":
-        return "register %s -> %s" % ([(d["version"], d["annotation"], "extends %s" % d.get("extends")) for d in o["defs"]], "ok" if s.get("exc") is None and "exc" in s else s)
+        return "register (file names given as a %s) %s -> %s" % (o.get("paths_as", "list"), [(d["version"], d["annotation"], "extends %s" % d.get("extends")) for d in o["defs"]], "ok" if s.get("exc") is None and "exc" in s else s)
     if o["k"] == "find":
         return "find_scheme(%s, %s) -> %s" % (o.get("version"), o.get("annotation"),
                                               "(%s, %s, %d columns)" % (s.get("version"), s["annotation"], len(s.get("names", []))) if s.get("annotation") else s)
